@@ -1,4 +1,5 @@
 import Lemmas.EngineAck
+import Lemmas.Batcher
 /-! C06 — acknowledged means persisted; rejected means no trace.
 Statements are about the `Ack` component of model B (`Model/Engine/Ack.lean`): every event sequence it accepts — any
 number of requests, any interleaving, any batch boundaries, store failures (`gate n false`), crashes at any point,
@@ -206,5 +207,110 @@ example : (runOn (step noDry) (init [l0]) [.committed 2 l2 0, .crash, .committed
 /-- an error answered after a commit, a second log of one request: rejected -/
 example : (runOn (step noDry) (init [l0]) [.committed 1 l1 1, .finish 1 false "boom" none]).toOption.isNone = true := by decide
 example : (runOn (step noDry) (init [l0]) [.committed 1 l1 1, .committed 1 l2 1]).toOption.isNone = true := by decide
+
+end C06
+
+/-! ## The components between `commit` and the store: `batching.Batcher` + `job.Runner` (`Model/Batcher.lean`)
+
+The `Ack` component above takes "a request is woken only once the store call that carried its entry returned nil; a
+failing call is followed by the death of the process, without a wake-up" as the behaviour of the batcher and of the job
+runner.  These theorems state it of the model of `batcher.go` / `jobs.go` itself: for EVERY operation sequence (append /
+the store call returns nil / returns an error / Close / Run), EVERY `maxBatchSize`, queues of any length.
+`checks/batchlib.py` ties the model to the real `Batcher[int]` + `job.Runner` operation by operation (area `batcher`). -/
+namespace C06
+open Batcher
+
+/-- **success only once the entry is persisted**: the objects whose callback has run are a prefix of the objects of the
+calls that returned nil (which are a prefix of what was appended): callbacks run in append order, and every one of them
+belongs to a batch that was handed to the runner function and whose call returned nil -/
+theorem ack_only_after_persisted (max : Nat) (ops : List Op) :
+    (run max ops).acked <+: (run max ops).persisted ∧
+    (run max ops).persisted <+: (run max ops).appended ∧
+    (run max ops).persisted = objectsOf true (run max ops).calls ∧
+    ∀ x ∈ (run max ops).acked, ∃ b, (b, true) ∈ (run max ops).calls ∧ x ∈ b ∧ b ∈ (run max ops).batches := by
+  have h := run_inv max ops
+  refine ⟨h.ackPre, ?_, h.callsP, ?_⟩
+  · rw [h.conserve]; exact ⟨(run max ops).failed ++ ((run max ops).flight ++ (run max ops).pending), by simp [List.append_assoc]⟩
+  · intro x hx
+    have hx' : x ∈ (run max ops).persisted := h.ackPre.subset hx
+    rw [h.callsP] at hx'
+    simp only [objectsOf, List.mem_flatten, List.mem_map, List.mem_filter] at hx'
+    obtain ⟨l, ⟨⟨b, ok⟩, ⟨hc, hok⟩, rfl⟩, hxl⟩ := hx'
+    have : ok = true := by simpa using hok
+    subst this
+    exact ⟨b, hc, hxl, h.callsB b true hc⟩
+
+/-- **a failing InsertLogs stops the process instead of acknowledging**: from the moment a call of the runner function
+returns an error — whatever happens afterwards — no callback runs any more and no further batch is handed out -/
+theorem failure_acks_nothing_and_stops (max : Nat) (ops : List Op) (b : List Nat)
+    (hb : (run max ops).inflight = some b) (more : List Op) :
+    (run max (ops ++ .fail :: more)).acked = (run max ops).acked ∧
+    (run max (ops ++ .fail :: more)).batches = (run max ops).batches ∧
+    (run max (ops ++ .fail :: more)).phase ≠ .running := by
+  have h := run_inv max ops
+  have hp := h.flightPhase (by simp [hb])
+  obtain ⟨_, hq⟩ := step_fail_spec (run max ops) b hb hp
+  obtain ⟨ha, hbt, _⟩ := step_fail_acked (run max ops)
+  obtain ⟨q, a, bt⟩ := runFrom_quiet _ more hq
+  have hrun : run max (ops ++ .fail :: more) = runFrom (step (run max ops) .fail) more := by
+    simp [run, runFrom, List.foldl_append]
+  rw [hrun]
+  refine ⟨a.trans ha, bt.trans hbt, ?_⟩
+  rcases q with q | q | q <;> simp [q]
+
+/-- … in particular nothing of the failed batch, and nothing queued behind it, is ever acknowledged (objects taken
+distinct, as log entries are) -/
+theorem failed_batch_never_acked (max : Nat) (ops : List Op) (b : List Nat)
+    (hb : (run max ops).inflight = some b) (more : List Op) (hd : (run max ops).appended.Nodup) :
+    ∀ x ∈ b ++ (run max ops).pending, x ∉ (run max (ops ++ .fail :: more)).acked := by
+  intro x hx hax
+  rw [(failure_acks_nothing_and_stops max ops b hb more).1] at hax
+  have h := run_inv max ops
+  have hxp : x ∈ (run max ops).persisted := h.ackPre.subset hax
+  have hc := h.conserve
+  rw [flight_some hb, List.append_assoc, List.append_assoc] at hc
+  rw [hc] at hd
+  have := (List.nodup_append.mp hd).2.2 x hxp x (by
+    rcases List.mem_append.mp hx with hx | hx <;> simp [hx])
+  exact this rfl
+
+/-- **stopping acknowledges nothing**: `Close` runs no callback and hands out no batch — in any state —, and from then
+on, whatever happens (the call in flight returns nil or an error, further appends), no callback runs: an object whose
+batch is persisted while the loop is stopping stays unacknowledged (the allowed "died after persistence, before the
+answer"), an object that was only queued is neither persisted nor acknowledged -/
+theorem stop_acks_nothing_unpersisted (max : Nat) (ops : List Op) (hstarted : (run max ops).phase ≠ .fresh)
+    (more : List Op) :
+    (step (run max ops) .close).acked = (run max ops).acked ∧
+    (run max (ops ++ .close :: more)).acked = (run max ops).acked ∧
+    (run max (ops ++ .close :: more)).batches = (run max ops).batches ∧
+    (run max (ops ++ .close :: more)).acked <+: (run max (ops ++ .close :: more)).persisted := by
+  have h := run_inv max ops
+  obtain ⟨ha, hbt, _⟩ := step_close_acked (run max ops)
+  have hq : Quiet (step (run max ops) .close) :=
+    close_quiet _ (step_inv _ _ h) (step_close_closeCalled _ h hstarted)
+  obtain ⟨_, a, bt⟩ := runFrom_quiet _ more hq
+  have hrun : run max (ops ++ .close :: more) = runFrom (step (run max ops) .close) more := by
+    simp [run, runFrom, List.foldl_append]
+  refine ⟨ha, ?_, ?_, (run_inv max _).ackPre⟩
+  · rw [hrun]; exact a.trans ha
+  · rw [hrun]; exact bt.trans hbt
+
+/-- `Close` in any state whatsoever (reachable or not) runs no callback -/
+theorem close_runs_no_callback (s : State) : (step s .close).acked = s.acked := (step_close_acked s).1
+
+/-! non-vacuity: a failing batch (`[1]` fails with `2, 3` queued behind it: nothing acknowledged, the loop is dead, later
+operations change nothing); a stop with work queued (`[1]` in flight, `2` queued: `1` is persisted by the return, never
+acknowledged; `2` is neither) -/
+example : ((run 2 [.start, .append 1, .append 2, .fail, .append 3, .release, .close]).acked,
+           (run 2 [.start, .append 1, .append 2, .fail, .append 3, .release, .close]).batches,
+           (run 2 [.start, .append 1, .append 2, .fail, .append 3, .release, .close]).phase,
+           (run 2 [.start, .append 1, .append 2, .fail, .append 3, .release, .close]).pending)
+    = ([], [[1]], .dead, [2, 3]) := by decide
+example : ((run 2 [.start, .append 1, .append 2, .close, .release, .release]).acked,
+           (run 2 [.start, .append 1, .append 2, .close, .release, .release]).persisted,
+           (run 2 [.start, .append 1, .append 2, .close, .release, .release]).pending,
+           (run 2 [.start, .append 1, .append 2, .close, .release, .release]).phase)
+    = ([], [1], [2], .stopped) := by decide
+example : ((run 1 [.start, .append 1, .append 2, .release, .release]).acked) = [1, 2] := by decide
 
 end C06
